@@ -6,25 +6,52 @@
    (decodeFrom) takes a prefix, then exactly that many payload bytes.  Abstraction: a chunk is
    <<g, q, "h">> (length prefix of message q of writer g) or <<g, q, "p">> (its payload); the
    reader pairs chunk 2i-1 with chunk 2i, a message is intact iff both belong to the same
-   message.  Compression is per message and stateless here, it is not part of this model. *)
+   message.
+   Compression is per message: every Write / WriteUnreliable compresses with an encoder of its own (encb .. ence). Reliable writers
+   encode inside sendMu; the datagram writers (WriteUnreliable, AsUnreliable().Write) take no lock at all. SharedEncoder = TRUE is the
+   variant with ONE encoder per transport that is reset for every message: serialised for the reliable writers, but a datagram writer
+   resets it in the middle of a reliable message - both outputs are garbage (NoCorruptMessage violated; without datagram writers the
+   variant is indistinguishable, which is why it looks safe).                                                                    *)
 EXTENDS Integers, Sequences, FiniteSets, TLC, Json
 
 CONSTANTS SWriters,   \* number of writers
           SPer,       \* messages per writer
-          SendLock    \* TRUE: as coded (sendMu); FALSE: seeded model fault
+          SendLock,   \* TRUE: as coded (sendMu); FALSE: seeded model fault
+          DWriters,   \* number of datagram writers (no lock), DPer messages each
+          DPer,
+          SharedEncoder   \* FALSE: as coded (a fresh compressor per message); TRUE: one compressor per transport, reset per message
 
 SW == 1..SWriters
-SInit0 == [stream |-> <<>>, pc |-> [g \in SW |-> "idle"], nq |-> [g \in SW |-> 0], holder |-> 0]
+DW == (SWriters + 1)..(SWriters + DWriters)
+SInit0 == [stream |-> <<>>, pc |-> [g \in SW \cup DW |-> "idle"], nq |-> [g \in SW \cup DW |-> 0], holder |-> 0,
+           dsent |-> <<>>,      \* datagrams handed to the connection: <<g, q>>
+           encBusy |-> 0,       \* writer currently between reset and close of the shared encoder
+           hit |-> {},          \* writers whose encoding in progress was disturbed
+           bad |-> {}]          \* messages <<g, q>> whose compressed form is garbage
+
+\* begin / end of compressing the writer's current message
+EncB(st, g) == IF ~SharedEncoder THEN st
+               ELSE [st EXCEPT !.hit = IF st.encBusy # 0 THEN @ \cup {st.encBusy, g} ELSE @, !.encBusy = g]
+EncE(st, g) == IF ~SharedEncoder THEN st
+               ELSE [st EXCEPT !.bad = IF g \in st.hit THEN @ \cup {<<g, st.nq[g]>>} ELSE @, !.hit = @ \ {g},
+                               !.encBusy = IF @ = g THEN 0 ELSE @]
 
 SApply(st, op) ==
     CASE op.a = "lock"   -> [st EXCEPT !.pc[op.tag] = "locked", !.nq[op.tag] = @ + 1, !.holder = IF SendLock THEN op.tag ELSE @]
+      [] op.a = "encb"   -> LET s1 == IF op.tag \in DW THEN [st EXCEPT !.nq[op.tag] = @ + 1] ELSE st
+                            IN [EncB(s1, op.tag) EXCEPT !.pc[op.tag] = "encb"]
+      [] op.a = "ence"   -> [EncE(st, op.tag) EXCEPT !.pc[op.tag] = "enc"]
+      [] op.a = "dsend"  -> [st EXCEPT !.pc[op.tag] = "idle", !.dsent = Append(@, <<op.tag, st.nq[op.tag]>>)]
       [] op.a = "hdr"    -> [st EXCEPT !.pc[op.tag] = "hdr", !.stream = Append(@, <<op.tag, st.nq[op.tag], "h">>)]
       [] op.a = "pay"    -> [st EXCEPT !.pc[op.tag] = "pay", !.stream = Append(@, <<op.tag, st.nq[op.tag], "p">>)]
       [] op.a = "unlock" -> [st EXCEPT !.pc[op.tag] = "idle", !.holder = IF @ = op.tag THEN 0 ELSE @]
 
 SEnabledOps(st) ==
     { [a |-> "lock", tag |-> g] : g \in {x \in SW : st.pc[x] = "idle" /\ st.nq[x] < SPer /\ (SendLock => st.holder = 0)} }
-    \cup { [a |-> "hdr", tag |-> g] : g \in {x \in SW : st.pc[x] = "locked"} }
+    \cup { [a |-> "encb", tag |-> g] : g \in {x \in SW : st.pc[x] = "locked"} \cup {x \in DW : st.pc[x] = "idle" /\ st.nq[x] < DPer} }
+    \cup { [a |-> "ence", tag |-> g] : g \in {x \in SW \cup DW : st.pc[x] = "encb"} }
+    \cup { [a |-> "dsend", tag |-> g] : g \in {x \in DW : st.pc[x] = "enc"} }
+    \cup { [a |-> "hdr", tag |-> g] : g \in {x \in SW : st.pc[x] = "enc"} }
     \cup { [a |-> "pay", tag |-> g] : g \in {x \in SW : st.pc[x] = "hdr"} }
     \cup { [a |-> "unlock", tag |-> g] : g \in {x \in SW : st.pc[x] = "pay"} }
 
@@ -35,6 +62,8 @@ FramingIntactOf(st) ==
     /\ \A i \in 1..Len(Parsed(st)) : LET h == Parsed(st)[i][1]  p == Parsed(st)[i][2]
                                       IN h[3] = "h" /\ p[3] = "p" /\ h[1] = p[1] /\ h[2] = p[2]
     /\ (Len(st.stream) % 2 = 1 => st.stream[Len(st.stream)][3] = "h")
+\* no message (stream or datagram) is handed to the connection in a corrupted compressed form
+NoCorruptMessageOf(st) == st.bad = {}
 \* per-writer order and no duplicates
 StreamOrderOf(st) ==
     \A i, j \in 1..Len(st.stream) :
